@@ -87,6 +87,7 @@ impl Provider {
         self.n_mremap_shrink = 0;
         self.n_mremap_grow = 0;
         self.n_mremap_move = 0;
+        self.n_exhausted = 0;
     }
 
     fn grant_pages(&self, addr: usize, len: usize) {
